@@ -234,7 +234,7 @@ Section Shape.
     else if height <? two * round then None
     else
       let sh := (height / two) - round in
-      let u := v2normalize (v2sub (mkV2 r1 (height / two)) (mkV2 r0 (- height / two))) in
+      let u := v2normalize (v2sub (mkV2 r1 (height / two)) (mkV2 r0 (- (height / two)))) in
       let n := mkV2 (vy u) (- (vx u)) in
       let ofs := round / vx n in
       let sr0 := r0 - (o1 O + vy n) * ofs in
@@ -256,7 +256,7 @@ Section Shape.
                if (t >=? o0 O) && (t <=? l) then dslope - round
                else if t <? o0 O then v2len v - round
                else v2len (v2sub p2 (mkV2 sr1 sh)) - round)
-        (mkBox3 (mkV3 (- r) (- r) (- height / two)) (mkV3 r r (height / two)))).
+        (mkBox3 (mkV3 (- r) (- r) (- (height / two))) (mkV3 r r (height / two)))).
 
   (* ---------------------------------------------------------------- 2D -> 3D *)
   Definition k_revolve (s : Obj2) (theta0 : T) : option Obj3 :=
